@@ -1,11 +1,124 @@
 import Nsq.Model.Line
 import Nsq.Model.Guid
-/-! Driver for engine E1 (codec): one operation per input line, one canonical answer line out. -/
+import Nsq.Model.Num
+import Nsq.Model.PQ
+import Nsq.Model.Timing
+import Nsq.Model.Wire
+/-! Driver for engine E1 (codec / numeric / timing): one operation per input line, one canonical
+answer line out. The only state kept between lines is the channel of the `ch …` operations. -/
 open Nsq Nsq.Line
 
 def errName : Nsq.Model.Guid.Err → String
   | .none => "none" | .timeBackwards => "timeBackwards"
   | .sequenceExpired => "sequenceExpired" | .idBackwards => "idBackwards"
+
+/-! ### helpers -/
+
+def toBV8 (b : List UInt8) : List (BitVec 8) := b.map (fun x => BitVec.ofNat 8 x.toNat)
+
+def joinWith (sep : String) (xs : List String) : String :=
+  if xs.isEmpty then "-" else sep.intercalate xs
+
+def parseE (s : String) : Option Nsq.Model.PQ.E :=
+  match s.splitOn ":" with
+  | [a, b, c] =>
+    match a.toNat?, b.toInt?, c.toInt? with
+    | some id, some pri, some ix => some { id := id, pri := pri, index := ix }
+    | _, _, _ => none
+  | _ => none
+
+def parseHeap (s : String) : Option Nsq.Model.PQ.H :=
+  if s = "-" then some #[] else
+  (s.splitOn ",").foldl (fun acc x => match acc, parseE x with
+    | some a, some e => some (a.push e)
+    | _, _ => none) (some #[])
+
+def showE (e : Nsq.Model.PQ.E) : String := s!"{e.id}:{e.pri}:{e.index}"
+
+def showHeap (a : Nsq.Model.PQ.H) : String := joinWith "," (a.toList.map showE)
+
+def showPopped (none_ : String) : Option (Nsq.Model.PQ.H × Nsq.Model.PQ.E) → String
+  | none => none_
+  | some (a, e) => s!"{showE e} | {showHeap a}"
+
+def parseNats (s : String) : Option (List Nat) :=
+  if s = "-" then some [] else (s.splitOn ",").mapM (·.toNat?)
+
+def insertSorted (x : Nat) : List Nat → List Nat
+  | [] => [x]
+  | y :: ys => if x ≤ y then x :: y :: ys else y :: insertSorted x ys
+
+def sortNats (l : List Nat) : List Nat := l.foldr insertSorted []
+
+def insertInF (x : Nsq.Model.Timing.InF) : List Nsq.Model.Timing.InF → List Nsq.Model.Timing.InF
+  | [] => [x]
+  | y :: ys => if x.id ≤ y.id then x :: y :: ys else y :: insertInF x ys
+
+def showChan (c : Nsq.Model.Timing.Chan) : String :=
+  let ifm := (c.ifmap.foldr insertInF []).map (fun r => s!"{r.id}:{r.client}:{r.dts}")
+  s!"ifpq={showHeap c.ifpq} ifmap={joinWith "," ifm} dpq={showHeap c.dpq} " ++
+  s!"dmap={joinWith "," ((sortNats c.dmap).map toString)} ready={joinWith "," (c.ready.map toString)}"
+
+def resName : Nsq.Model.Timing.Res → String
+  | .ok => "ok" | .alreadyInFlight => "alreadyInFlight" | .notInFlight => "notInFlight"
+  | .notOwner => "notOwner" | .alreadyDeferred => "alreadyDeferred" | .panic => "panic"
+
+def heapChecks (a : Nsq.Model.PQ.H) : String :=
+  s!"ord={Nsq.Model.PQ.heapOrdOk a} idx={Nsq.Model.PQ.indexOk a}"
+
+/-! ### the channel operations (stateful) -/
+
+def chanStep (c : Nsq.Model.Timing.Chan) (w : List String) : Nsq.Model.Timing.Chan × String :=
+  open Nsq.Model.Timing in
+  let fin (r : Chan × Res) : Chan × String :=
+    ({ r.1 with ready := [] }, s!"{resName r.2} {showChan r.1}")
+  match w with
+  | ["reset"] => ({}, "ok " ++ showChan {})
+  | ["inflight", now, id, client, timeout] =>
+    match now.toInt?, id.toNat?, client.toInt?, timeout.toInt? with
+    | some now, some id, some client, some timeout => fin (startInFlight c now id client timeout)
+    | _, _, _, _ => (c, "bad-op")
+  | ["setdts", id, dts] =>
+    match id.toNat?, dts.toInt? with
+    | some id, some dts =>
+      let c' := { c with ifmap := c.ifmap.map (fun r => if r.id == id then { r with dts := dts } else r) }
+      (c', "ok " ++ showChan c')
+    | _, _ => (c, "bad-op")
+  | ["touch", now, client, id, mt, maxmt] =>
+    match now.toInt?, client.toInt?, id.toNat?, mt.toInt?, maxmt.toInt? with
+    | some now, some client, some id, some mt, some maxmt => fin (touch c now client id mt maxmt)
+    | _, _, _, _, _ => (c, "bad-op")
+  | ["finish", client, id] =>
+    match client.toInt?, id.toNat? with
+    | some client, some id => fin (finish c client id)
+    | _, _ => (c, "bad-op")
+  | ["requeue", now, client, id, timeout] =>
+    match now.toInt?, client.toInt?, id.toNat?, timeout.toInt? with
+    | some now, some client, some id, some timeout => fin (requeue c now client id timeout)
+    | _, _, _, _ => (c, "bad-op")
+  | ["defer", now, id, timeout] =>
+    match now.toInt?, id.toNat?, timeout.toInt? with
+    | some now, some id, some timeout => fin (startDeferred c now id timeout)
+    | _, _, _ => (c, "bad-op")
+  | ["scanif", t] =>
+    match t.toInt? with
+    | some t =>
+      let s := scanInFlight c t
+      ({ s.chan with ready := [] },
+       s!"dirty={s.dirty} rel={joinWith "," (s.released.map showE)} {showChan s.chan} {heapChecks s.chan.ifpq}")
+    | none => (c, "bad-op")
+  | ["scandef", t] =>
+    match t.toInt? with
+    | some t =>
+      let s := scanDeferred c t
+      ({ s.chan with ready := [] },
+       s!"dirty={s.dirty} rel={joinWith "," (s.released.map showE)} {showChan s.chan} {heapChecks s.chan.dpq}")
+    | none => (c, "bad-op")
+  | _ => (c, "bad-op")
+
+/-! ### stateless operations -/
+
+def showBytesList (l : List (List UInt8)) : String := joinWith "," (l.map hex)
 
 def stepLine (line : String) : String :=
   match words line with
@@ -19,15 +132,163 @@ def stepLine (line : String) : String :=
     match bv64 g with
     | some g => bytesToString (Nsq.Model.Guid.hex g)
     | none => "bad-op"
+  -- numeric
+  | ["b10", h] =>
+    match unhex h with
+    | some b => match Nsq.Model.Num.byteToBase10 (toBV8 b) with
+      | some n => s!"ok {n.toNat}"
+      | none => "err"
+    | none => "bad-op"
+  | ["ms2dur", ms] =>
+    match ms.toNat? with
+    | some ms => s!"{(Nsq.Model.Num.msToDuration (BitVec.ofNat 64 ms)).toInt}"
+    | none => "bad-op"
+  | ["req", maxReq, h] =>
+    match bv64 maxReq, unhex h with
+    | some m, some b => match Nsq.Model.Num.reqTimeout m (toBV8 b) with
+      | some d => s!"{d.toInt}"
+      | none => "err"
+    | _, _ => "bad-op"
+  | ["reqtcp", maxReq, h, lo, hi] =>
+    match bv64 maxReq, unhex h, lo.toInt?, hi.toInt? with
+    | some m, some b, some lo, some hi => match Nsq.Model.Num.reqTimeout m (toBV8 b) with
+      | some d => s!"ok in={decide (lo ≤ d.toInt ∧ d.toInt ≤ hi)}"
+      | none => "err"
+    | _, _, _, _ => "bad-op"
+  | ["dpub", maxReq, h] =>
+    match bv64 maxReq, unhex h with
+    | some m, some b => match Nsq.Model.Num.dpubDefer m (toBV8 b) with
+      | .ok d => s!"{d.toInt}"
+      | .error .parse => "parse"
+      | .error .range => "range"
+    | _, _ => "bad-op"
+  | ["hdefer", maxReq, h] =>
+    match bv64 maxReq, unhex h with
+    | some m, some b => match Nsq.Model.Num.httpDefer m (toBV8 b) with
+      | some d => s!"{d.toInt}"
+      | none => "invalid"
+    | _, _ => "bad-op"
+  | ["setmsgtimeout", maxmt, cur, v] =>
+    match bv64 maxmt, bv64 cur, bv64 v with
+    | some m, some c, some v => match Nsq.Model.Num.setMsgTimeout m c v with
+      | some d => s!"{d.toInt}"
+      | none => "invalid"
+    | _, _, _ => "bad-op"
+  -- heaps (stateless: the whole array is part of the line)
+  | ["pq1", "push", a, id, pri] =>
+    match parseHeap a, id.toNat?, pri.toInt? with
+    | some a, some id, some pri => showHeap (Nsq.Model.PQ.push a id pri)
+    | _, _, _ => "bad-op"
+  | ["pq2", "push", a, id, pri] =>
+    match parseHeap a, id.toNat?, pri.toInt? with
+    | some a, some id, some pri => showHeap (Nsq.Model.PQ.push a id pri)
+    | _, _, _ => "bad-op"
+  | ["pq1", "pop", a] =>
+    match parseHeap a with
+    | some a => showPopped "panic" (Nsq.Model.PQ.pop1 a)
+    | none => "bad-op"
+  | ["pq1", "remove", a, i] =>
+    match parseHeap a, i.toNat? with
+    | some a, some i => showPopped "panic" (Nsq.Model.PQ.remove1 a i)
+    | _, _ => "bad-op"
+  | ["pq2", "remove", a, i] =>
+    match parseHeap a, i.toNat? with
+    | some a, some i => showPopped "panic" (Nsq.Model.PQ.remove2 a i)
+    | _, _ => "bad-op"
+  | ["pq1", "peek", a, t] =>
+    match parseHeap a, t.toInt? with
+    | some a, some t => showPopped "nil" (Nsq.Model.PQ.peekAndShift1 a t)
+    | _, _ => "bad-op"
+  | ["pq2", "peek", a, t] =>
+    match parseHeap a, t.toInt? with
+    | some a, some t => showPopped "nil" (Nsq.Model.PQ.peekAndShift2 a t)
+    | _, _ => "bad-op"
+  | ["pqinv", a] =>
+    match parseHeap a with
+    | some a => heapChecks a
+    | none => "bad-op"
+  | ["uniq", q, n, rs] =>
+    match q.toNat?, n.toNat?, parseNats rs with
+    | some q, some n, some rs =>
+      match Nsq.Model.Timing.uniqRands q n (fun i => match rs[i]? with | some v => v | none => 0) with
+      | some l => joinWith "," (l.map toString)
+      | none => "panic"
+    | _, _, _ => "bad-op"
+  -- wire formats
+  | ["enc", ts, att, id, body] =>
+    match bv64 ts, att.toNat?, unhex id, unhex body with
+    | some ts, some att, some id, some body =>
+      hex (Nsq.Model.Wire.encode { ts := ts, attempts := BitVec.ofNat 16 att, id := id, body := body })
+    | _, _, _, _ => "bad-op"
+  | ["dec", b] =>
+    match unhex b with
+    | some b => match Nsq.Model.Wire.decode b with
+      | some m => s!"{m.ts.toInt} {m.attempts.toNat} {hex m.id} {hex m.body}"
+      | none => "err"
+    | none => "bad-op"
+  | ["frame", ft, d] =>
+    match ft.toInt?, unhex d with
+    | some ft, some d => hex (Nsq.Model.Wire.encodeFrame { ftype := BitVec.ofInt 32 ft, data := d })
+    | _, _ => "bad-op"
+  | ["frames", s] =>
+    match unhex s with
+    | some s => match Nsq.Model.Wire.parseFrames s with
+      | some fs => joinWith "," (fs.map (fun f => s!"{f.ftype.toInt}:{hex f.data}"))
+      | none => "err"
+    | none => "bad-op"
+  | ["mpub", maxMsg, maxBody, s] =>
+    match maxMsg.toInt?, maxBody.toInt?, unhex s with
+    | some mm, some mb, some s => match Nsq.Model.Wire.readMPUB s mm mb with
+      | .ok (bs, rest) => s!"ok {bs.length} {showBytesList bs} rest={rest.length}"
+      | .error .badBody => "E_BAD_BODY"
+      | .error .badMessage => "E_BAD_MESSAGE"
+    | _, _, _ => "bad-op"
+  | "bufw" :: cap :: ops =>
+    match cap.toNat? with
+    | some cap =>
+      let r := ops.foldl (fun (acc : Option Nsq.Model.Wire.BufW) o =>
+        match acc with
+        | none => none
+        | some w =>
+          if o = "f" then some (Nsq.Model.Wire.bufFlush w)
+          else if o.startsWith "w" then (unhex (String.ofList (o.toList.drop 1))).map (Nsq.Model.Wire.bufWrite w)
+          else none) (some { cap := cap })
+      match r with
+      | some w => s!"sink={hex w.sink} buf={hex w.buf}"
+      | none => "bad-op"
+    | none => "bad-op"
+  | [hp, maxMsg, s] =>
+    if hp != "hpub" && hp != "hpubcl" then "bad-op" else
+    match maxMsg.toNat?, unhex s with
+    | some mm, some s => match Nsq.Model.Wire.httpPub (hp == "hpubcl") s mm with
+      | .ok b => s!"ok {hex b}"
+      | .error .tooBig => "MSG_TOO_BIG"
+      | .error .empty => "MSG_EMPTY"
+    | _, _ => "bad-op"
+  | [tm, maxMsg, maxBody, s] =>
+    if tm != "textmpub" && tm != "textmpubcl" then "bad-op" else
+    match maxMsg.toNat?, maxBody.toNat?, unhex s with
+    | some mm, some mb, some s => match Nsq.Model.Wire.textMpubHttp (tm == "textmpubcl") s mm mb with
+      | .ok bs => s!"ok {bs.length} {showBytesList bs}"
+      | .error .bodyTooBig => "BODY_TOO_BIG"
+      | .error .msgTooBig => "MSG_TOO_BIG"
+    | _, _, _ => "bad-op"
   | _ => "bad-op"
 
-partial def loop (h : IO.FS.Stream) (out : IO.FS.Stream) : IO Unit := do
+partial def loop (h : IO.FS.Stream) (out : IO.FS.Stream) (c : Nsq.Model.Timing.Chan) : IO Unit := do
   let line ← h.getLine
   if line.isEmpty then return ()
-  out.putStrLn (stepLine (line.dropRightWhile (· == '\n')))
-  loop h out
+  let l := line.dropRightWhile (· == '\n')
+  match words l with
+  | "ch" :: rest =>
+    let r := chanStep c rest
+    out.putStrLn r.2
+    loop h out r.1
+  | _ =>
+    out.putStrLn (stepLine l)
+    loop h out c
 
 def main : IO Unit := do
   let out ← IO.getStdout
-  loop (← IO.getStdin) out
+  loop (← IO.getStdin) out {}
   out.flush
